@@ -20,7 +20,7 @@ static inline u##W vf_smin##W(u##W a,u##W b){return (i##W)a<(i##W)b?a:b;} \
 static inline u##W vf_smax##W(u##W a,u##W b){return (i##W)a>(i##W)b?a:b;} \
 static inline u##W vf_abs##W(u##W a,u1 p){return (i##W)a<0?(u##W)(0-a):a;} \
 static inline u##W vf_usub_sat##W(u##W a,u##W b){return a>b?(u##W)(a-b):0;}
-VF_MM(8) VF_MM(16) VF_MM(32) VF_MM(64)
+VF_MM(8) VF_MM(16) VF_MM(32) VF_MM(64) VF_MM(128)
 static inline u64 vf_ctlz64(u64 a, u1 zp){ return a==0 ? 64 : (u64)__builtin_clzll(a); }
 static inline u32 vf_ctlz32(u32 a, u1 zp){ return a==0 ? 32 : (u32)__builtin_clz(a); }
 static inline u64 vf_cttz64(u64 a, u1 zp){ return a==0 ? 64 : (u64)__builtin_ctzll(a); }
